@@ -11,7 +11,7 @@
 From Coq Require Import ZArith List String Bool.
 From Gigue Require Import Types Bits Isa Enc GenTables Builder BuilderTies Samplers Generator Machine MachineLemmas
   SplitProofs FragProofs GenLemmas ImageSem CtorSpec C12Defs C12Proofs GenWF GenWFProps SliceLemmas FloatSign GenWF2 BodyExec BodyBridge GenWF5 FrameExec CodeMem SwitchExec GenWF6 GenWF4 GenWF7 GenWF8 GenWF9 Walk CallFrame MethodContract CallFrameRimi MethodContractRimi SaveRestore TrampExec TrampsInv TrampStubs WholeImage Loader Witness LoaderWitness WholeImageRimi LoaderRimi LoaderWitnessRimi RimiFullExec WholeImageRimiFull LoaderRimiFull LoaderWitnessRimiFull
-  GenWF9F WalkK FixerTamper FixerCall MethodContractFixer WholeImageFixer LoaderFixer WitnessFixer LoaderWitnessFixer.
+  GenWF9F WalkK FixerTamper FixerCall MethodContractFixer WholeImageFixer LoaderFixer WitnessFixer LoaderWitnessFixer Trace.
 Import ListNotations.
 Open Scope Z_scope.
 
@@ -338,6 +338,32 @@ Theorem C01_fixer_image_from_files_nonvacuous :
   existsb (fun m => negb (m_is_leaf m)) (im_methods wimg_x) = true.
 Proof. split; [exact fixer_image_from_files_nonvacuous|]. split; [exact ws0_init_x|exact wimg_shape_x]. Qed.
 
+(* PROVED: the wording of the property for the plain variants, from the whole-image
+   theorem and the generic trace lemma (Trace.clean_run_trace): the executed pc
+   sequence of the whole run has exactly image_steps entries, every one of them is
+   4-aligned, lies inside the emitted image [code_lo, code_hi) and is not the halt
+   address; the run then sits at the caller's return address.  (Trace.v's lemma is
+   generic in the variant: the same reading applies to the conclusions of the
+   rimiss / rimifull / fixer whole-image theorems.) *)
+Theorem C01_plain_run_fetches_inside_code : forall c script img,
+  successful c script img -> plain c ->
+  (uses_tramp (c_variant c) = true -> c_data_reg c <> 6) ->
+  forall L s0, Init c img (Ntot c img) L s0 -> code_lo L = int_start_al c ->
+    code_hi L - code_lo L < 2147483648 - 2048 -> pics_encodable img ->
+    (forall r o, In (r, o) int_slots -> 0 <= rget s0 r < W64) ->
+    exists s' n, run (gv c) L n s0 = (Next s', n) /\ pc s' = halt_at L /\
+      List.length (run_pcs (gv c) L n s0) = n /\
+      Forall (fun p => p <> halt_at L /\ p mod 4 = 0 /\ code_lo L <= p /\ p + 4 <= code_hi L)
+             (run_pcs (gv c) L n s0).
+Proof.
+  intros c script img Hs Hp H6 L s0 HI Hlo Hsz Hpe Hr.
+  destruct (C01_plain_image_from_files c script img Hs Hp H6 L s0 HI Hlo Hsz Hpe Hr)
+    as (s' & eh & _ & _ & Hrun & Hpc & _).
+  exists s', (image_steps c img eh). split; [exact Hrun|]. split; [exact Hpc|].
+  exact (clean_run_trace _ _ _ _ _ Hrun).
+Qed.
+
+Print Assumptions C01_plain_run_fetches_inside_code.
 Print Assumptions C01_fixer_image_from_files.
 Print Assumptions C01_fixer_image_from_files_nonvacuous.
 Print Assumptions C01_rimifull_image_from_files.
